@@ -414,6 +414,8 @@ def runSO2 (dbg : Bool) (op : String) (mask : Nat) (args : List K) (ints : List 
   | "normalize", [a, b], _ => some (.ok (SO2.normalize ⟨a, b⟩).toList)
   | "make", [a, b], _ => some ((SO2.make dbg a b).map SO2.toList)
   | "ofAngle", [a], _ => some ((SO2.ofAngle dbg a).map SO2.toList)
+  | "ctor_angle", [a], _ => some ((SO2.ofAngle dbg a).map SO2.toList)
+  | "accessors", [a, b], _ => some (.ok [a, b, SO2.angle ⟨a, b⟩])
   | "angle", [a, b], _ => some (.ok [SO2.angle ⟨a, b⟩])
   | _, _, _ => runBase so2Ops so2Codec dbg op mask args ints
 
@@ -435,6 +437,11 @@ def runSE2 (dbg : Bool) (op : String) (mask : Nat) (args : List K) (ints : List 
   | "normalize", [a, b, c, d], _ => some (.ok (SE2.normalize ⟨a, b, c, d⟩).toList)
   | "make", [a, b, c, d], _ => some ((SE2.make dbg a b c d).map SE2.toList)
   | "ofXYAngle", [a, b, c], _ => some ((SE2.ofXYAngle dbg a b c).map SE2.toList)
+  | "ctor_xyt", [a, b, c], _ => some ((SE2.ofXYAngle dbg a b c).map SE2.toList)
+  | "ctor_iso", _, _ => if args.length == 9 then some ((SE2.ofIsometry dbg args).map SE2.toList) else none
+  | "accessors", [a, b, c, d], _ =>
+      let X : SE2 K := ⟨a, b, c, d⟩
+      some (.ok ([a, b, c, d, X.angle, a, b] ++ X.transform.toList))
   | "angle", [a, b, c, d], _ => some (.ok [SE2.angle ⟨a, b, c, d⟩])
   | _, _, _ => runBase se2Ops se2Codec dbg op mask args ints
 
@@ -454,6 +461,11 @@ def runSO3 (dbg : Bool) (op : String) (mask : Nat) (args : List K) (ints : List 
   | "generator", [], [i] => some (genFromTable Generated.SO3GenTable Generated.SO3GenErr i)
   | "normalize", [a, b, c, d], _ => some (.ok (SO3.normalize ⟨⟨a, b, c, d⟩⟩).toList)
   | "make", [a, b, c, d], _ => some ((SO3.make dbg ⟨a, b, c, d⟩).map SO3.toList)
+  | "ctor_rpy", [a, b, c], _ => some ((SO3.ofRPY dbg a b c).map SO3.toList)
+  | "ctor_aa", [a, x, y, z], _ => some ((SO3.ofAngleAxis dbg a ⟨x, y, z⟩).map SO3.toList)
+  | "set_quat", [a, b, c, d, x, y, z, w], _ =>
+      some ((SO3.setQuat dbg ⟨⟨a, b, c, d⟩⟩ ⟨x, y, z, w⟩).map SO3.toList)
+  | "accessors", [a, b, c, d], _ => some (.ok [a, b, c, d, a, b, c, d])
   | _, _, _ => runBase so3Ops so3Codec dbg op mask args ints
 
 def runSE3 (dbg : Bool) (op : String) (mask : Nat) (args : List K) (ints : List Int) :
@@ -476,6 +488,15 @@ def runSE3 (dbg : Bool) (op : String) (mask : Nat) (args : List K) (ints : List 
   | "make", [a, b, c, qx, qy, qz, qw], _ =>
       some ((SE3.make dbg ⟨a, b, c⟩ ⟨qx, qy, qz, qw⟩).map SE3.toList)
   | "vee", _, _ => if args.length == 16 then some (.ok (SE3T.vee args).toList) else none
+  | "ctor_xyzrpy", [x, y, z, a, b, c], _ => some ((SE3.ofXYZRPY dbg x y z a b c).map SE3.toList)
+  | "ctor_taa", [x, y, z, a, ax, ay, az], _ => some ((SE3.ofTAA dbg ⟨x, y, z⟩ a ⟨ax, ay, az⟩).map SE3.toList)
+  | "ctor_tso3", [x, y, z, qx, qy, qz, qw], _ => some ((SE3.make dbg ⟨x, y, z⟩ ⟨qx, qy, qz, qw⟩).map SE3.toList)
+  | "ctor_iso", _, _ => if args.length == 16 then some ((SE3.ofIsometry dbg args).map SE3.toList) else none
+  | "set_quat", [a, b, c, qx, qy, qz, qw, x, y, z, w], _ =>
+      some ((SE3.setQuat dbg ⟨⟨a, b, c⟩, ⟨qx, qy, qz, qw⟩⟩ ⟨x, y, z, w⟩).map SE3.toList)
+  | "accessors", [a, b, c, qx, qy, qz, qw], _ =>
+      let X : SE3 K := ⟨⟨a, b, c⟩, ⟨qx, qy, qz, qw⟩⟩
+      some (.ok ([a, b, c, a, b, c, qx, qy, qz, qw] ++ X.transformRows ++ [qx, qy, qz, qw]))
   | "fillQ", [a, b, c, d, e, f], _ => some (.ok (SE3T.fillQ ⟨a, b, c⟩ ⟨d, e, f⟩).toList)
   | _, _, _ => runBase se3Ops se3Codec dbg op mask args ints
 
